@@ -3,10 +3,10 @@
 package storeprops
 
 import (
-	"time"
 	"fmt"
 	"strings"
 	"testing"
+	"time"
 
 	"verifharness/memds"
 	"verifharness/mon"
@@ -61,7 +61,7 @@ func TestC04(t *testing.T) {
 		p := c04P{Cfg: cfg, Chain: chain}
 		nops := 3 + rng.Intn(maxOps-2)
 		next := uint64(1 + rng.Intn(3)) // lowest height not yet handed out
-		var pool []uint64              // heights skipped earlier (gaps to fill)
+		var pool []uint64               // heights skipped earlier (gaps to fill)
 		for j := 0; j < nops; j++ {
 			switch x := rng.Intn(100); {
 			case x < 55: // append
